@@ -118,6 +118,22 @@ theorem reject_domain (env : Env) (p : ProofIn) (h : env.domainOk ≠ some true)
           | false => exact ⟨_, rfl⟩
   · simp [hp]
 
+/-- `StaticDomain` accepts exactly the configured byte string: a port suffix, a sub-domain, another letter case, a
+trailing dot, a Unicode look-alike or another normalisation form are all different domains, and a proof presenting
+one of them is rejected. -/
+theorem reject_domain_static (env : Env) (p : ProofIn) (configured : List UInt8)
+    (hd : env.domainOk = some (staticDomain configured p.domain)) :
+    (staticDomain configured p.domain = true ↔ configured = p.domain)
+    ∧ (configured ≠ p.domain → ∃ e, checkProof H verify env p = .err e) := by
+  have hiff : staticDomain configured p.domain = true ↔ configured = p.domain := by simp [staticDomain]
+  refine ⟨hiff, ?_⟩
+  intro hne
+  apply reject_domain H verify env p
+  rw [hd]
+  intro h
+  simp only [Option.some.injEq] at h
+  exact hne (hiff.mp h)
+
 /-- Undecodable fields (address not `wc:hex`, workchain not a 32-bit decimal, bad hex, bad base64 signature) are
 rejected. -/
 theorem reject_bad_encoding (env : Env) (p : ProofIn) (e : String) (hc : convertTonProofMessage p = .err e) :
